@@ -680,6 +680,52 @@ op_dup(const char *id, const struct reg *rg, const char *ttok, int idx, unsigned
     lyd_free_all(T);
 }
 
+/* dupinto: the node (mode 0/2) or the node and its following siblings (1/3) — children of a top-level node — are duplicated INTO
+ * the `pidx`-th top-level node of a second tree, a parent that already has children of its own (lyd_dup_r ->
+ * lyd_insert_node into a populated parent; the first_llist fast path of lyd_dup); the whole target tree is dumped */
+static LY_ERR
+do_dup_into(const struct lyd_node *node, const struct ly_ctx *ctx2, struct lyd_node *parent, unsigned o, int mode, struct lyd_node **d)
+{
+    switch (mode) {
+    case 0: return lyd_dup_single(node, (struct lyd_node_inner *)parent, o, d);
+    case 1: return lyd_dup_siblings(node, (struct lyd_node_inner *)parent, o, d);
+    case 2: return lyd_dup_single_to_ctx(node, ctx2, (struct lyd_node_inner *)parent, o, d);
+    default: return lyd_dup_siblings_to_ctx(node, ctx2, (struct lyd_node_inner *)parent, o, d);
+    }
+}
+
+static void
+op_dupinto(const char *id, const struct reg *rg, const char *ttok, int idx, unsigned o, int mode, const char *ptok, int pidx)
+{
+    struct lyd_node *T, *P = NULL, *arr[TP_MAXNODES * 4], *d = NULL, *par = NULL, *it;
+    const struct tp_schema *s = rg->s, *sd = (mode >= 2) ? rg->s2 : rg->s;
+    int n, i;
+    LY_ERR r;
+
+    if (arg_tree(id, s, ttok, &T)) return;
+    if (arg_tree(id, sd, ptok, &P)) { lyd_free_all(T); return; }
+    n = collect(T, arr, TP_MAXNODES * 4);
+    i = 0;
+    LY_LIST_FOR(P ? lyd_first_sibling(P) : NULL, it) { if (i++ == pidx) par = it; }
+    if (idx < 0 || idx >= n || !par) { vp_reply(id, "err BadIndex"); goto done; }
+    if (!arr[idx]->parent || lyd_parent(arr[idx])->parent || !par->schema || !(par->schema->nodetype & LYD_NODE_INNER) ||
+            strcmp(lyd_parent(arr[idx])->schema->name, par->schema->name) || (o & LYD_DUP_WITH_PARENTS)) {
+        vp_reply(id, "err BadParent");
+        goto done;
+    }
+    r = do_dup_into(arr[idx], sd->ctx, par, o, mode, &d);
+    if (r) {
+        dbgmsg(sd, "dupinto");
+        vp_reply(id, "err %s", tp_errname(r));
+    } else {
+        P = lyd_first_sibling(par);
+        vp_begin(id, "ok"); tp_field_dump(sd, P); vp_end();
+    }
+done:
+    lyd_free_all(T);
+    lyd_free_all(P);
+}
+
 static int
 no_meta(struct lyd_node *t)
 {
@@ -845,6 +891,8 @@ main(void)
             op_indep(id, s, r.tok[4], r.tok[5], (unsigned)atoi(r.tok[6]), (unsigned)atoi(r.tok[7]));
         } else if (!strcmp(op, "dup") && r.ntok == 8) {
             op_dup(id, rg, r.tok[4], atoi(r.tok[5]), (unsigned)atoi(r.tok[6]), atoi(r.tok[7]));
+        } else if (!strcmp(op, "dupinto") && r.ntok == 10) {
+            op_dupinto(id, rg, r.tok[4], atoi(r.tok[5]), (unsigned)atoi(r.tok[6]), atoi(r.tok[7]), r.tok[8], atoi(r.tok[9]));
         } else if (!strcmp(op, "dlaw") && r.ntok == 9) {
             op_dlaw(id, rg, r.tok[4], atoi(r.tok[5]), (unsigned)atoi(r.tok[6]), atoi(r.tok[7]), (unsigned)atoi(r.tok[8]));
         } else {
